@@ -1,6 +1,6 @@
-// UNIT handler_ops: Handler::configure_read_options, process_frame (whole and its stamping loop), the dispatch loop of
-// Handler::serve, Handler::spawn, start_handler -- generated, do not edit. `.await` stripped: sequential code only.
-// Generators and commands are unit lifecycle_ops.
+// UNIT lifecycle_ops: generators (append, try_start_task, the duplex subscription of spawn) and commands (handle_define, the
+// result frames of execute_command) -- generated, do not edit. `.await` stripped: sequential code only. No Handler type in this unit:
+// a refactor of Handler / HandlerConfig leaves these obligations decided (the handler side is unit handler_ops).
 #![feature(allocator_api)]
 #![feature(pattern)]
 #![allow(unused_imports, dead_code, unused_variables, unused_mut, non_snake_case)]
@@ -135,14 +135,6 @@ pub assume_specification<T, F: FnOnce() -> T> [Option::<T>::get_or_insert_with] 
 //@@ item file=src/store/mod.rs struct=ReadOptions
 //@@ end
 //@@ item file=src/nu/config.rs struct=ReturnOptions
-//@@ end
-//@@ item file=src/handlers/handler.rs struct=Handler
-//@@ rewrite: Arc<EngineWorker> ==> ! EngineWorker
-//@@ rewrite: Arc<Mutex<Vec<Frame>>> ==> ! OutputBuf
-//@@ end
-//@@ item file=src/handlers/handler.rs struct=HandlerConfig
-//@@ end
-//@@ item file=src/handlers/handler.rs enum=ResumeFrom
 //@@ end
 //@@include _lemmas_be.rs
 //@@ item file=src/store/mod.rs const=ZERO_CONTEXT
@@ -340,282 +332,30 @@ impl Clone for Frame { #[verifier::external_body] fn clone(&self) -> (r: Frame) 
 pub assume_specification<T: std::ops::Deref> [Option::<T>::as_deref] (o: &Option<T>) -> (r: Option<&<T as std::ops::Deref>::Target>)
     ensures r is Some <==> *o is Some;
 
-impl Handler {
-    // evaluating the handler closure: may buffer `.append`ed frames (ghost hx.buffered) and succeeds or fails
-    #[verifier::external_body]
-    pub fn eval_in_thread(&self, Tracked(hx): Tracked<&mut Hx>, frame: &Frame) -> (r: Result<Value, Error>)
-        ensures final(hx).appended == old(hx).appended, final(hx).processed == old(hx).processed, final(hx).incoming == old(hx).incoming,
-            final(hx).evals == old(hx).evals + 1,
-            forall|i: int| 0 <= i < final(hx).buffered.len() ==> (#[trigger] final(hx).buffered[i]).meta is None || serde_json::is_object(final(hx).buffered[i].meta.unwrap()),
-            r is Ok ==> r.unwrap() == eval_value(old(hx).evals, *frame) && final(hx).buffered == old(hx).buffered + eval_buffered(old(hx).evals, *frame),
-    { unimplemented!() }
-}
-//@@ default_after_all: .eval_in_thread( ==> Tracked(hx),
-//@@ default_after_all: .drain( ==> Tracked(hx),
 
-impl Handler {
-// ================= process_frame, whole function (C15) =================
-//@@ item file=src/handlers/handler.rs fn=process_frame impl=Handler ret=r as=process_frame_whole
-//@@ attr: #[verifier::loop_isolation(false)]
-//@@ strip: async await
-//@@ rewrite: additional_frame.into_iter() ==> opt_into_iter(additional_frame)
-//@@ format_desugar
-//@@ rewrite: ro.suffix.as_deref() ==> opt_string_as_str(&ro.suffix)
-//@@ closure_spec: .and_then( ~ suffix ==> -> (o: Option<&str>) ensures match o { Some(x) => $1.suffix is Some && x@ == $1.suffix.unwrap()@, None => $1.suffix is None }
-//@@ closure_spec: .and_then( ~ ttl ==> -> (o: Option<TTL>) ensures o == $1.ttl
-//@@ after_all: fn process_frame(&mut self, ==> Tracked(hx): Tracked<&mut Hx>,
-//@@ for_name: for mut output_frame in
-//@@ closure_spec: .get_or_insert_with( ==> -> (v: serde_json::Value) ensures serde_json::is_object(v)
-//@@ loop_spec: for mut output_frame in
-    invariant
-        hx.processed == old(hx).processed, self.id == old(self).id, self.context_id == old(self).context_id, self.topic == old(self).topic,
-        hx.evals == old(hx).evals + 1,
-        hx.appended.len() == old(hx).appended.len() + it.index@,
-        forall|i: int| 0 <= i < old(hx).appended.len() ==> #[trigger] hx.appended[i] == old(hx).appended[i],
-        forall|i: int| 0 <= i < it.index@ ==> stamped(#[trigger] hx.appended[old(hx).appended.len() + i], output_to_process@[i], self, frame), //# handler.process_frame.outputs_stamped_in_order
-//@@ before_stmt?: let _ = store.append(
-    proof {
-        reveal_strlit("handler_id"); reveal_strlit("frame_id");
-        assert("handler_id"@.len() != "frame_id"@.len());
-    }
-//@@ loop_top: for mut output_frame in
-    broadcast use axiom_display_id, axiom_display_str, serde_json::axiom_key_chars_str, serde_json::axiom_key_chars_string;
-//@@ spec
-    requires old(hx).buffered.len() == 0,
-    ensures
-        final(self).id == old(self).id, final(self).context_id == old(self).context_id, final(self).topic == old(self).topic,
-        // all-or-nothing: if the closure (or storing its return value) fails, NONE of the frames of this invocation appear (C15)
-        r is Err ==> final(hx).appended == old(hx).appended, //# handler.process_frame.nothing_on_failure
-        // on success: the buffered `.append`s in call order, then (if any) the return-value frame, each exactly once,
-        // stamped and forced into the handler's context; the closure was evaluated exactly once (C14, C15)
-        final(hx).evals == old(hx).evals + 1, //# handler.process_frame.one_evaluation
-        r is Ok ==> exists|outs: Seq<Frame>| pf_outputs(outs, old(self), frame) && final(hx).appended.len() == old(hx).appended.len() + outs.len()
-            && (forall|i: int| 0 <= i < old(hx).appended.len() ==> #[trigger] final(hx).appended[i] == old(hx).appended[i])
-            && (forall|i: int| 0 <= i < outs.len() ==> stamped(#[trigger] final(hx).appended[old(hx).appended.len() + i], outs[i], old(self), frame)), //# handler.process_frame.outputs_stamped_in_order
-        // exactly: every frame the script buffered, in call order, then - unless the closure returned nothing (or one of its own
-        // append records) - ONE frame on <name><suffix> with the configured TTL and the hash of the JSON text of the value
-        r is Ok ==> ({
-            let b = eval_buffered(old(hx).evals, *frame);
-            let n0 = old(hx).appended.len();
-            &&& final(hx).appended.len() == n0 + b.len() + (if emits_return(eval_value(old(hx).evals, *frame), old(self).id) { 1int } else { 0int })
-            &&& forall|i: int| 0 <= i < b.len() ==> stamped(#[trigger] final(hx).appended[n0 + i], b[i], old(self), frame)
-        }), //# handler.process_frame.buffered_appends_in_call_order
-        r is Ok && emits_return(eval_value(old(hx).evals, *frame), old(self).id) ==> ({
-            let out = final(hx).appended[(old(hx).appended.len() + eval_buffered(old(hx).evals, *frame).len()) as int];
-            &&& out.topic@ == old(self).topic@ + ret_suffix(old(self))
-            &&& out.ttl == ret_ttl(old(self))
-            &&& out.hash == Some(content_hash(json_text(value_json(eval_value(old(hx).evals, *frame)))))
-            &&& out.context_id == old(self).context_id
-        }), //# handler.process_frame.return_value_frame
-//@@ prologue
-    broadcast use axiom_display_id, axiom_display_str, axiom_display_json;
-    proof { axiom_fmt_req2(); }
-//@@ before_stmt?: for mut output_frame in
-    proof {
-        assert(output_to_process@ =~= hx_after_eval.buffered + (match add0 { Some(f) => seq![f], None => Seq::<Frame>::empty() }));
-        assert forall|i: int| 0 <= i < output_to_process@.len() implies
-            (#[trigger] output_to_process@[i]).meta is None || serde_json::is_object(output_to_process@[i].meta.unwrap()) by {
-            if i < hx_after_eval.buffered.len() { assert(output_to_process@[i] == hx_after_eval.buffered[i]); }
-            else { assert(add0 is Some); assert(output_to_process@[i] == add0.unwrap()); assert(add0.unwrap().meta is None); }
-        }
-        assert(pf_outputs(output_to_process@, self, frame));
-    }
-//@@ before_stmt?: let additional_frame =
-    let ghost hx_after_eval = *hx;
-//@@ before_stmt?: let output_to_process
-    let ghost add0 = additional_frame;
+
+// ================= generators::spawn (C17): a duplex generator that is (re)started reads its input from just after the
+// <name>.start frame THIS spawn appended - so the <name>.send frames of before the restart are not fed to it again
+//@@ item file=src/generators/serve.rs struct=GeneratorMeta
 //@@ end
-}
-// the frames one invocation emits: what the script buffered (any frames whose meta is absent or an object), then at most one
-// return-value frame, which is in the handler's context, has a hash and no meta
-pub open spec fn emits_return(v: Value, id: Scru128Id) -> bool { !is_own_append_value(v, id) && !(v is Nothing) }
-spec fn ret_suffix(h: &Handler) -> Seq<char> {
-    match h.config.return_options { Some(ro) => (match ro.suffix { Some(x) => x@, None => ".out"@ }), None => ".out"@ }
-}
-spec fn ret_ttl(h: &Handler) -> Option<TTL> { match h.config.return_options { Some(ro) => ro.ttl, None => None } }
-spec fn pf_outputs(outs: Seq<Frame>, h: &Handler, trigger: &Frame) -> bool {
-    &&& forall|i: int| 0 <= i < outs.len() ==> (#[trigger] outs[i]).meta is None || serde_json::is_object(outs[i].meta.unwrap())
-}
-
-impl Handler {
-// ================= configure_read_options (C06, C14) =================
-//@@ item file=src/handlers/handler.rs fn=configure_read_options impl=Handler ret=r
-//@@ strip: async
-//@@ closure_spec: .map( ==> -> (fo: FollowOption) ensures fo matches FollowOption::WithHeartbeat(d) && dur_ns(d) == $1 as nat * 1_000_000
-//@@ spec
-    ensures
-        // a handler only ever subscribes to its own context (C06) ...
-        r.context_id == Some(self.context_id), //# handler.options.own_context
-        // ... follows forever, from the configured resume point: head = everything, tail = nothing historical,
-        // after(id) = strictly after id (C14)
-        match self.config.resume_from {
-            ResumeFrom::Head => r.last_id is None && !r.tail,
-            ResumeFrom::Tail => r.last_id is None && r.tail,
-            ResumeFrom::After(id) => r.last_id == Some(id) && !r.tail,
-        }, //# handler.options.resume_point
-        match self.config.pulse {
-            Some(p) => r.follow matches FollowOption::WithHeartbeat(d) && dur_ns(d) == p as nat * 1_000_000,
-            None => r.follow is On,
-        }, //# handler.options.follow_and_pulse_ms
-        r.limit is None, //# handler.options.no_limit
+//@@ item file=src/generators/serve.rs struct=GeneratorTask
 //@@ end
-
-// process_frame as the dispatch loop sees it: must never be handed the handler's own output (C14)
-    #[verifier::external_body]
-    fn process_frame(&mut self, Tracked(hx): Tracked<&mut Hx>, frame: &Frame, store: &Store) -> (r: Result<(), ProcessError>)
-        requires !own_output(*frame, old(self).id),
-        ensures final(self).id == old(self).id, final(self).context_id == old(self).context_id, final(self).topic == old(self).topic,
-            final(hx).processed == old(hx).processed.push(*frame), final(hx).incoming == old(hx).incoming,
-            old(hx).appended.len() <= final(hx).appended.len(),
-            final(hx).proc_out == old(hx).proc_out + (final(hx).appended.len() - old(hx).appended.len()),
-            final(hx).failures == old(hx).failures + (if r is Err { 1nat } else { 0nat }),
-    { unimplemented!() }
-
-// ================= dispatch loop of serve (C14) =================
-//@@ item file=src/handlers/handler.rs fn=serve impl=Handler as=serve_loop
-//@@ attr: #[verifier::loop_isolation(false)]
-//@@ after_all: fn serve(&mut self, ==> Tracked(hx): Tracked<&mut Hx>,
-//@@ after_all: store.read( ==> Tracked(hx),
-//@@ strip: await
-//@@ json_desugar
-//@@ format_desugar
-//@@ closure_spec: .and_then( ~ get ==> -> (o: Option<&serde_json::Value>) ensures o == (if serde_json::is_object(*$1) && serde_json::obj(*$1).contains_key("handler_id"@) { Some(&serde_json::obj(*$1)["handler_id"@]) } else { None })
-//@@ closure_spec: .and_then( ~ as_str ==> -> (o: Option<&str>) ensures match o { Some(s) => serde_json::strv(*$1) == Some(s@), None => serde_json::strv(*$1) is None }
-//@@ closure_spec: .filter( ==> -> (b: bool) ensures b == ((*$1)@ == id_str(id_u128(self.id)))
-//@@ closure_spec: .is_some_and( ==> -> (b: bool) ensures b == ($1@ == id_str(id_u128(self.id)))
-//@@ loop_spec: while let Some(frame) = recver.recv()
-    invariant
-        // no frame consumed so far unregistered the handler: it is still active
-        forall|i: int| 0 <= i < consumed(old(hx).incoming, hx.incoming).len() ==> !stops(#[trigger] old(hx).incoming[i], self.topic@, self.id), //# handler.serve.stops_when_unregistered
-        // ... and it has neither failed nor announced anything itself
-        direct_appends(old(hx), hx) == 0 && hx.failures == old(hx).failures, //# handler.serve.one_unregistered_per_stop
-        hx.appended.len() - old(hx).appended.len() >= hx.proc_out - old(hx).proc_out >= 0, hx.failures >= old(hx).failures,
-        self.id == old(self).id, self.context_id == old(self).context_id, self.topic == old(self).topic,
-        hx.incoming.len() <= old(hx).incoming.len(),
-        hx.incoming =~= old(hx).incoming.subrange(old(hx).incoming.len() - hx.incoming.len(), old(hx).incoming.len() as int),
-        // the frames handed to process_frame so far: exactly the wanted ones among the frames consumed, in order, each once
-        old(hx).processed.len() <= hx.processed.len(),
-        hx.processed =~= old(hx).processed + wanted_of(consumed(old(hx).incoming, hx.incoming), self.topic@, self.id), //# handler.serve.exactly_the_wanted_frames_in_order
-        forall|i: int| 0 <= i < hx.processed.len() - old(hx).processed.len() ==> !own_output(#[trigger] hx.processed[old(hx).processed.len() + i], self.id), //# handler.serve.never_own_output
-    decreases hx.incoming.len(),
-//@@ loop_top: while let Some(frame) = recver.recv()
-    broadcast use axiom_display_id, axiom_display_str, serde_json::axiom_str_value;
-    proof {
-        axiom_fmt_req();
-        reveal_strlit("handler_id"); reveal_strlit("frame_id"); reveal_strlit("error");
-        assert("handler_id"@.len() == 10 && "frame_id"@.len() == 8 && "error"@.len() == 5);
-        let k = old(hx).incoming.len() - hx.incoming.len();
-        assert(frame == old(hx).incoming[k - 1]);
-        assert(consumed(old(hx).incoming, hx.incoming).drop_last() =~= old(hx).incoming.subrange(0, k - 1));
-        assert(consumed(old(hx).incoming, hx.incoming).last() == frame);
-    }
-    let ghost proc0 = hx.processed;
-//@@ spec
-    ensures
-        final(hx).incoming.len() <= old(hx).incoming.len(),
-        // invoked exactly once, in order, for every frame of the subscription that is neither registration traffic of its own
-        // name nor its own output ...
-        final(hx).processed.len() >= old(hx).processed.len(),
-        final(hx).processed =~= old(hx).processed + wanted_of(consumed(old(hx).incoming, final(hx).incoming), old(self).topic@, old(self).id), //# handler.serve.exactly_the_wanted_frames_in_order
-        forall|i: int| 0 <= i < final(hx).processed.len() - old(hx).processed.len() ==> !own_output(#[trigger] final(hx).processed[old(hx).processed.len() + i], old(self).id), //# handler.serve.never_own_output
-        // ... until it is unregistered: nothing is consumed after a frame that unregisters (or replaces) it, whoever wrote that frame
-        forall|i: int| 0 <= i < consumed(old(hx).incoming, final(hx).incoming).len() - 1 ==> !stops(#[trigger] old(hx).incoming[i], old(self).topic@, old(self).id), //# handler.serve.stops_when_unregistered
-        // each stop - a frame that unregisters or replaces it, or a failed invocation - is announced by exactly one
-        // <name>.unregistered frame in its own context carrying its handler id, the id of the frame that stopped it and, for a
-        // failure, the error; it is the last thing the instance does. Without a stop it announces nothing.
-        stop_announced(old(hx), final(hx), old(self).topic@, old(self).context_id, old(self).id), //# handler.serve.one_unregistered_per_stop
-//@@ prologue
-    proof { assert(consumed(hx.incoming, hx.incoming) =~= Seq::<Frame>::empty()); }
-//@@ end
-
-// ================= stamping loop of process_frame (C06, C14, C15) =================
-//@@ slice file=src/handlers/handler.rs fn=process_frame impl=Handler name=stamp_loop
-//@@ from: for mut output_frame in output_to_process
-//@@ through_block
-//@@ for_name: for mut output_frame in
-//@@ closure_spec: .get_or_insert_with( ==> -> (v: serde_json::Value) ensures serde_json::is_object(v)
-//@@ loop_spec: for mut output_frame in
-    invariant
-        hx.processed == old(hx).processed,
-        hx.appended.len() == old(hx).appended.len() + it.index@,
-        forall|i: int| 0 <= i < old(hx).appended.len() ==> #[trigger] hx.appended[i] == old(hx).appended[i],
-        forall|i: int| 0 <= i < it.index@ ==> stamped(#[trigger] hx.appended[old(hx).appended.len() + i], output_to_process@[i], self, frame), //# handler.stamp.every_output_stamped
-//@@ before_stmt?: let _ = store.append(
-    proof {
-        reveal_strlit("handler_id"); reveal_strlit("frame_id");
-        assert("handler_id"@.len() != "frame_id"@.len());
-    }
-//@@ loop_top: for mut output_frame in
-    broadcast use axiom_display_id, axiom_display_str, serde_json::axiom_key_chars_str, serde_json::axiom_key_chars_string;
-    let ghost of0 = output_frame;
+//@@ slice file=src/generators/serve.rs fn=spawn name=spawn_duplex_options
+//@@ from: let options = ReadOptions::builder()
+//@@ from_nth: 0
+//@@ through_stmt:
 //@@ header
-#[verifier::loop_isolation(false)]
-fn stamp_loop(&self, frame: &Frame, store: &Store, output_to_process: Vec<Frame>, Tracked(hx): Tracked<&mut Hx>)
-    requires
-        // buffered `.append` builds its meta from a nu Record, i.e. absent or a JSON object
-        forall|i: int| 0 <= i < output_to_process@.len() ==> (#[trigger] output_to_process@[i]).meta is None || serde_json::is_object(output_to_process@[i].meta.unwrap()),
+fn spawn_duplex_options(start: Frame, task: GeneratorTask) -> (r: ReadOptions)
     ensures
-        final(hx).processed == old(hx).processed,
-        // exactly one append per buffered frame, in buffer order (return frame last), each stamped with the handler id and the
-        // triggering frame id (overriding whatever the script put there) and forced into the handler's own context
-        final(hx).appended.len() == old(hx).appended.len() + output_to_process@.len(), //# handler.stamp.one_append_per_output
-        forall|i: int| 0 <= i < old(hx).appended.len() ==> #[trigger] final(hx).appended[i] == old(hx).appended[i],
-        forall|i: int| 0 <= i < output_to_process@.len() ==> stamped(#[trigger] final(hx).appended[old(hx).appended.len() + i], output_to_process@[i], self, frame), //# handler.stamp.every_output_stamped
+        r.last_id == Some(start.id) && !r.tail, //# generator.spawn.input_only_after_own_start
+        r.follow is On && r.limit is None, //# generator.spawn.input_follows_forever
 {
 //@@ epilogue
+    options
 }
 //@@ end
-}
-
 
 impl Clone for ReadOptions { #[verifier::external_body] fn clone(&self) -> (r: ReadOptions) ensures r == *self { unimplemented!() } }
-impl Clone for Handler { #[verifier::external_body] fn clone(&self) -> (r: Handler) ensures r == *self { unimplemented!() } }
-pub mod tokio_h {
-    #[allow(unused_imports)] use super::*;
-    // tokio::spawn(async move { handler.serve(&store, options).await }): the async block is elided; what it captured is recorded
-    // (its body, the dispatch loop, is verified above as serve_loop)
-    #[verifier::external_body]
-    pub fn spawn(Tracked(hx): Tracked<&mut Hx>, handler_id: Scru128Id, options: &ReadOptions)
-        ensures final(hx).starts == old(hx).starts.push((handler_id, *options, old(hx).appended.len())),
-            final(hx).appended == old(hx).appended, final(hx).processed == old(hx).processed, final(hx).incoming == old(hx).incoming,
-    { unimplemented!() }
-}
-spec fn registered_frame(f: Frame, h: &Handler) -> bool {
-    &&& f.topic@ == h.topic@ + ".registered"@ && f.context_id == h.context_id
-    &&& f.meta matches Some(m) && serde_json::is_object(m)
-        && serde_json::obj(m).contains_key("handler_id"@) && serde_json::strv(serde_json::obj(m)["handler_id"@]) == Some(id_str(id_u128(h.id)))
-}
-impl Handler {
-// ================= Handler::spawn, whole function (C16, C14): one dispatch task on the handler's own subscription, then one <name>.registered =================
-//@@ item file=src/handlers/handler.rs fn=spawn impl=Handler ret=r as=spawn_whole
-//@@ strip: async await
-//@@ json_desugar
-//@@ format_desugar
-//@@ elide_arg: tokio::spawn( ==> Tracked(hx), handler.id, &options
-//@@ rewrite: pub async fn spawn( ==> ! fn spawn_whole(
-//@@ rewrite: tokio::spawn( ==> tokio_h::spawn(
-//@@ after_all: fn spawn(&self, ==> Tracked(hx): Tracked<&mut Hx>,
-//@@ spec
-    ensures
-        r is Ok,
-        // exactly one dispatch task, for this handler, subscribed with the options configure_read_options gives (own context,
-        // configured resume point), started BEFORE the announcement is appended ...
-        final(hx).starts.len() == old(hx).starts.len() + 1 && final(hx).starts.drop_last() == old(hx).starts
-            && final(hx).starts.last().0 == self.id && final(hx).starts.last().1.context_id == Some(self.context_id)
-            && final(hx).starts.last().2 == old(hx).appended.len(), //# handler.spawn.one_task_on_own_context_before_announcing
-        // ... and exactly one <name>.registered frame in its own context carrying its handler id
-        final(hx).appended.len() == old(hx).appended.len() + 1 && final(hx).appended.drop_last() == old(hx).appended
-            && registered_frame(final(hx).appended.last(), self), //# handler.spawn.one_registered_announcement
-//@@ prologue
-    broadcast use axiom_display_id, axiom_display_str, serde_json::axiom_str_value;
-    proof {
-        axiom_fmt_req();
-        reveal_strlit("handler_id"); reveal_strlit("tail"); reveal_strlit("last_id");
-        assert("handler_id"@.len() == 10 && "tail"@.len() == 4 && "last_id"@.len() == 7);
-    }
-//@@ end
-}
-
 // ================= handlers::serve::start_handler, whole function (C16) =================
 // a registration that cannot be turned into a handler (invalid script / configuration) is announced by exactly one
 // <name>.unregistered frame carrying the registering frame's id and the error; a valid one is spawned exactly once
@@ -623,50 +363,9 @@ pub mod nu { pub struct Engine { pub state: super::EngineState }
     impl Clone for Engine { #[verifier::external_body] fn clone(&self) -> (r: Engine) { unimplemented!() } }
     pub use super::value_to_json; }
 pub struct Sx { pub ghost spawned: Seq<Scru128Id> }
-// whether the registering frame's script and configuration are accepted: decided by the nu engine, an oracle here
-pub uninterp spec fn from_frame_ok(f: Frame) -> bool;
-impl Handler {
-    #[verifier::external_body]
-    fn from_frame(frame: &Frame, store: &Store, engine: nu::Engine) -> (r: Result<Handler, Error>)
-        ensures r is Ok == from_frame_ok(*frame), r matches Ok(h) ==> h.id == frame.id && h.context_id == frame.context_id,
-    { unimplemented!() }
-    // Handler::spawn: starts the dispatch loop (unit above) on its own task and announces <name>.registered
-    #[verifier::external_body]
-    fn spawn(&self, Tracked(sx): Tracked<&mut Sx>, store: Store) -> (r: Result<(), Error>)
-        ensures final(sx).spawned == old(sx).spawned.push(self.id),
-    { unimplemented!() }
-}
 impl Clone for Store { #[verifier::external_body] fn clone(&self) -> (r: Store) { unimplemented!() } }
 impl std::fmt::Display for Error { #[verifier::external_body] fn fmt(&self, f: &mut std::fmt::Formatter) -> std::fmt::Result { unimplemented!() } }
 pub proof fn axiom_fmt_req3() ensures vstd::std_specs::fmt::fmt_req_all::<Error>() { admit(); }
-//@@ item file=src/handlers/serve.rs fn=start_handler ret=r
-//@@ strip: async await
-//@@ json_desugar
-//@@ format_desugar
-//@@ rewrite: Result<(), Box<dyn std::error::Error + Send + Sync>> ==> ! Result<(), Error>
-//@@ after_all: fn start_handler( ==> Tracked(hx): Tracked<&mut Hx>, Tracked(sx): Tracked<&mut Sx>,
-//@@ after_all: handler.spawn( ==> Tracked(sx),
-//@@ spec
-    ensures
-        from_frame_ok(*frame) ==> final(hx).appended == old(hx).appended && final(sx).spawned == old(sx).spawned.push(frame.id), //# handlers.start.valid_registration_spawned_once
-        !from_frame_ok(*frame) ==> r is Ok && final(sx).spawned == old(sx).spawned
-            && final(hx).appended.len() == old(hx).appended.len() + 1 && final(hx).appended.drop_last() == old(hx).appended
-            && rejected_announcement(final(hx).appended.last(), topic@, *frame), //# handlers.start.invalid_registration_announced_once
-//@@ prologue
-    broadcast use axiom_display_id, serde_json::axiom_str_value;
-    proof {
-        axiom_fmt_req(); axiom_fmt_req3();
-        reveal_strlit("handler_id"); reveal_strlit("error");
-        assert("handler_id"@.len() == 10 && "error"@.len() == 5);
-    }
-//@@ end
-spec fn rejected_announcement(f: Frame, name: Seq<char>, reg: Frame) -> bool {
-    &&& f.topic@ == name + ".unregistered"@ && f.context_id == reg.context_id
-    &&& f.meta matches Some(m) && serde_json::is_object(m)
-        && serde_json::obj(m).contains_key("handler_id"@) && serde_json::strv(serde_json::obj(m)["handler_id"@]) == Some(id_str(id_u128(reg.id)))
-        && serde_json::obj(m).contains_key("error"@)
-}
-
 // ================= commands (C19) =================
 // text suffix tests (ASSUMED of std): strip_suffix is a suffix test on the text
 pub uninterp spec fn pat_chars<P>(p: P) -> Seq<char>;
@@ -676,6 +375,230 @@ pub open spec fn strip(s: Seq<char>, p: Seq<char>) -> Seq<char> { s.subrange(0, 
 pub assume_specification<P: core::str::pattern::Pattern> [str::strip_suffix::<P>] (s: &str, p: P) -> (r: Option<&str>)
     where for<'b> P::Searcher<'b>: core::str::pattern::ReverseSearcher<'b>
     ensures match r { Some(t) => has_suffix(s@, pat_chars::<P>(p)) && t@ == strip(s@, pat_chars::<P>(p)), None => !has_suffix(s@, pat_chars::<P>(p)) };
+//@@ item file=src/commands/serve.rs struct=Command
+//@@ rewrite: nu::Engine ==> ! nu::Engine
+//@@ end
+impl Clone for ReturnOptions { #[verifier::external_body] fn clone(&self) -> (r: ReturnOptions) ensures r == *self { unimplemented!() } }
+#[verifier::external_body] pub struct CommandTable { _p: () }
+pub uninterp spec fn ctable(t: &CommandTable) -> Map<Seq<char>, Command>;
+impl CommandTable {
+    #[verifier::external_body]
+    fn insert(&mut self, name: String, c: Command) -> (r: Option<Command>) ensures ctable(final(self)) == ctable(old(self)).insert(name@, c) { unimplemented!() }
+}
+// register_command: reads the definition from CAS and parses it with the nu engine: an oracle here; the command it builds
+// carries the id of the defining frame
+pub uninterp spec fn define_ok(f: Frame) -> bool;
+#[verifier::external_body]
+fn register_command(frame: &Frame, base_engine: &nu::Engine, store: &Store) -> (r: Result<Command, Error>)
+    ensures r is Ok == define_ok(*frame), r matches Ok(c) ==> c.id == frame.id,
+{ unimplemented!() }
+spec fn define_error_frame(f: Frame, name: Seq<char>, def: Frame) -> bool {
+    &&& f.topic@ == name + ".error"@ && f.context_id == def.context_id
+    &&& f.meta matches Some(m) && serde_json::is_object(m)
+        && serde_json::obj(m).contains_key("command_id"@) && serde_json::strv(serde_json::obj(m)["command_id"@]) == Some(id_str(id_u128(def.id)))
+        && serde_json::obj(m).contains_key("error"@)
+}
+// ---- handle_define, whole function: the latest valid definition wins, an invalid one is reported by exactly one <name>.error
+//@@ item file=src/commands/serve.rs fn=handle_define
+//@@ strip: async await
+//@@ json_desugar
+//@@ format_desugar
+//@@ rewrite: commands: &mut HashMap<String, Command> ==> ! commands: &mut CommandTable
+//@@ after_all: fn handle_define( ==> Tracked(hx): Tracked<&mut Hx>,
+//@@ spec
+    ensures
+        define_ok(*frame) ==> final(hx).appended == old(hx).appended && ctable(final(commands)).dom() == ctable(old(commands)).dom().insert(name@)
+            && ctable(final(commands))[name@].id == frame.id
+            && (forall|k: Seq<char>| k != name@ && ctable(old(commands)).contains_key(k) ==> ctable(final(commands))[k] == ctable(old(commands))[k]), //# command.define.valid_definition_replaces_the_name
+        !define_ok(*frame) ==> ctable(final(commands)) == ctable(old(commands))
+            && final(hx).appended.len() == old(hx).appended.len() + 1 && final(hx).appended.drop_last() == old(hx).appended
+            && define_error_frame(final(hx).appended.last(), name@, *frame), //# command.define.invalid_definition_reported_once
+//@@ prologue
+    broadcast use axiom_display_id, axiom_display_str, serde_json::axiom_str_value;
+    proof {
+        axiom_fmt_req(); axiom_fmt_req3();
+        reveal_strlit("command_id"); reveal_strlit("error");
+        assert("command_id"@.len() == 10 && "error"@.len() == 5);
+    }
+//@@ end
+
+// ---- the result half of execute_command (the body of its spawn_blocking closure from `match run_command(..)` on): one
+// <name><suffix> frame per value of the closure's output, in order, then exactly one <name>.complete - or exactly one <name>.error
+pub struct CommonOptions { pub run: nu_protocol::engine::Closure }
+#[verifier::external_body] pub struct PipelineData { _p: () }
+#[verifier::external_body] pub struct PipeIter { _p: () }
+pub uninterp spec fn pipe_values(p: &PipelineData) -> Seq<Value>;
+pub uninterp spec fn pipe_rest(i: &PipeIter) -> Seq<Value>;
+pub uninterp spec fn pipe_all(i: &PipeIter) -> Seq<Value>;
+impl PipelineData {
+    #[verifier::external_body]
+    pub fn into_iter(self) -> (i: PipeIter) ensures pipe_rest(&i) == pipe_values(&self), pipe_all(&i) == pipe_values(&self) { unimplemented!() }
+}
+impl PipeIter {
+    #[verifier::external_body]
+    pub fn next(&mut self) -> (r: Option<Value>)
+        ensures pipe_all(final(self)) == pipe_all(old(self)),
+            match r { Some(v) => pipe_rest(old(self)).len() > 0 && v == pipe_rest(old(self))[0] && pipe_rest(final(self)) == pipe_rest(old(self)).drop_first(),
+                      None => pipe_rest(old(self)).len() == 0 && pipe_rest(final(self)) == pipe_rest(old(self)) },
+    { unimplemented!() }
+}
+// run_command: evaluates the command's closure on the call frame (nu engine): an oracle for what it produced
+pub uninterp spec fn call_values(call: Frame) -> Option<Seq<Value>>;
+#[verifier::external_body]
+fn run_command(engine: &nu::Engine, closure: nu_protocol::engine::Closure, frame: &Frame) -> (r: Result<PipelineData, Box<ShellError>>)
+    ensures match r { Ok(p) => call_values(*frame) == Some(pipe_values(&p)), Err(_) => call_values(*frame) is None },
+{ unimplemented!() }
+impl Store {
+    #[verifier::external_body]
+    pub fn cas_insert_sync(&self, content: String) -> (r: Result<Integrity, CasError>) ensures r is Ok ==> r.unwrap() == content_hash(content@) { unimplemented!() }
+}
+spec fn stamped_by_command(f: Frame, topic: Seq<char>, call: Frame, cid: Scru128Id) -> bool {
+    &&& f.topic@ == topic && f.context_id == call.context_id
+    &&& f.meta matches Some(m) && serde_json::is_object(m)
+        && serde_json::obj(m).contains_key("command_id"@) && serde_json::strv(serde_json::obj(m)["command_id"@]) == Some(id_str(id_u128(cid)))
+        && serde_json::obj(m).contains_key("frame_id"@) && serde_json::strv(serde_json::obj(m)["frame_id"@]) == Some(id_str(id_u128(call.id)))
+}
+spec fn cmd_suffix(c: &Command) -> Seq<char> { match c.return_options { Some(ro) => (match ro.suffix { Some(x) => x@, None => ".recv"@ }), None => ".recv"@ } }
+spec fn cmd_ttl(c: &Command) -> Option<TTL> { match c.return_options { Some(ro) => ro.ttl, None => None } }
+spec fn recv_frame(f: Frame, v: Value, call: Frame, c: &Command) -> bool {
+    &&& stamped_by_command(f, strip(call.topic@, ".call"@) + cmd_suffix(c), call, c.id)
+    &&& f.ttl == cmd_ttl(c) && f.hash == Some(content_hash(json_text(value_json(v))))
+}
+//@@ slice file=src/commands/serve.rs fn=execute_command name=command_results
+//@@ from: match run_command(&engine, common_options.run, &frame) {
+//@@ through_close
+//@@ json_desugar
+//@@ format_desugar
+//@@ for_desugar: for value in
+//@@ rewrite: opts.suffix.as_deref() ==> opt_string_as_str(&opts.suffix)
+//@@ rewrite: Ok(()) as Result<(), Box<dyn std::error::Error + Send + Sync>> ==> ! Ok::<(), Error>(())
+//@@ closure_spec: .and_then( ~ suffix ==> -> (o: Option<&str>) ensures match o { Some(x) => $1.suffix is Some && x@ == $1.suffix.unwrap()@, None => $1.suffix is None }
+//@@ closure_spec: .and_then( ~ ttl ==> -> (o: Option<TTL>) ensures o == $1.ttl
+//@@ loop_spec: for value in
+    invariant
+        vals == pipe_all(&vx_it), 0 <= k <= vals.len(), pipe_rest(&vx_it) =~= vals.subrange(k, vals.len() as int), call_values(frame) == Some(vals),
+        has_suffix(frame.topic@, ".call"@), recv_suffix@ == cmd_suffix(&command), ttl == cmd_ttl(&command),
+        hx.appended.len() == old(hx).appended.len() + k,
+        forall|i: int| 0 <= i < old(hx).appended.len() ==> #[trigger] hx.appended[i] == old(hx).appended[i],
+        forall|i: int| 0 <= i < k ==> recv_frame(#[trigger] hx.appended[old(hx).appended.len() + i], vals[i], frame, &command), //# command.call.one_result_frame_per_value_in_order
+    decreases pipe_rest(&vx_it).len(),
+//@@ loop_top: for value in
+    broadcast use axiom_display_id, axiom_display_str, axiom_display_json, serde_json::axiom_str_value, axiom_pat_str;
+    proof {
+        axiom_fmt_req(); axiom_fmt_req2();
+        reveal_strlit("command_id"); reveal_strlit("frame_id");
+        assert("command_id"@.len() == 10 && "frame_id"@.len() == 8);
+        assert(value == vals[k]);
+        assert(vals.subrange(k, vals.len() as int).drop_first() =~= vals.subrange(k + 1, vals.len() as int));
+        k = k + 1;
+    }
+//@@ before_loop: for value in
+    let ghost vals = pipe_values(&pipeline_data);
+    let ghost mut k: int = 0;
+//@@ header
+#[verifier::loop_isolation(false)]
+fn command_results(engine: nu::Engine, common_options: CommonOptions, command: Command, frame: Frame, store: Store, Tracked(hx): Tracked<&mut Hx>) -> (r: Result<(), Error>)
+    requires has_suffix(frame.topic@, ".call"@),
+    ensures
+        forall|i: int| 0 <= i < old(hx).appended.len() && i < final(hx).appended.len() ==> #[trigger] final(hx).appended[i] == old(hx).appended[i],
+        // the closure produced values: one stamped result frame per value, in order, with the configured suffix and TTL and the
+        // value's JSON text in CAS, then exactly one <name>.complete
+        r is Ok && call_values(frame) is Some ==> ({
+            let vals = call_values(frame).unwrap(); let n0 = old(hx).appended.len() as int;
+            &&& final(hx).appended.len() == n0 + vals.len() + 1
+            &&& forall|i: int| 0 <= i < vals.len() ==> recv_frame(#[trigger] final(hx).appended[n0 + i], vals[i], frame, &command)
+            &&& stamped_by_command(final(hx).appended[n0 + vals.len() as int], strip(frame.topic@, ".call"@) + ".complete"@, frame, command.id)
+        }), //# command.call.one_result_frame_per_value_in_order
+        // the closure failed: exactly one <name>.error, stamped, carrying the error
+        call_values(frame) is None ==> r is Ok && final(hx).appended.len() == old(hx).appended.len() + 1
+            && stamped_by_command(final(hx).appended.last(), strip(frame.topic@, ".call"@) + ".error"@, frame, command.id)
+            && serde_json::obj(final(hx).appended.last().meta.unwrap()).contains_key("error"@), //# command.call.failure_reported_by_one_error_frame
+        // storing a result failed half way: results so far stay, no terminal frame from here (the caller reports it)
+        r is Err ==> call_values(frame) is Some && final(hx).appended.len() <= old(hx).appended.len() + call_values(frame).unwrap().len(), //# command.call.no_terminal_frame_when_cas_fails
+{
+    broadcast use axiom_display_id, axiom_display_str, axiom_display_json, serde_json::axiom_str_value, axiom_pat_str;
+    proof {
+        axiom_fmt_req(); axiom_fmt_req2();
+        reveal_strlit("command_id"); reveal_strlit("frame_id"); reveal_strlit("error");
+        assert("command_id"@.len() == 10 && "frame_id"@.len() == 8 && "error"@.len() == 5);
+    }
+//@@ epilogue
+}
+//@@ end
+
+// ================= generators::serve::append, whole function (C18) =================
+// every frame a generator emits: <name>.<suffix> in the spawn's context, source_id = the spawn's id, the content (if any) in CAS
+spec fn generator_frame(f: Frame, task: &GeneratorTask, suffix: Seq<char>, content: Option<String>) -> bool {
+    &&& f.topic@ == task.topic@ + "."@ + suffix && f.context_id == task.context_id
+    &&& f.hash == (match content { Some(c) => Some(content_hash(c@)), None => None })
+    &&& f.meta matches Some(m) && serde_json::is_object(m) && serde_json::obj(m).contains_key("source_id"@)
+        && serde_json::strv(serde_json::obj(m)["source_id"@]) == Some(id_str(id_u128(task.id)))
+}
+//@@ item file=src/generators/serve.rs fn=append ret=r as=generator_append
+//@@ strip: async await
+//@@ json_desugar
+//@@ format_desugar
+//@@ rewrite: Result<Frame, Box<dyn std::error::Error + Send + Sync>> ==> ! Result<Frame, Error>
+//@@ after_all: fn append( ==> Tracked(hx): Tracked<&mut Hx>,
+//@@ spec
+    ensures
+        // exactly one frame is handed to the store, and it is the generator's: name.suffix, spawn's context, source_id, content hash
+        final(hx).appended == old(hx).appended
+            || (final(hx).appended.len() == old(hx).appended.len() + 1 && final(hx).appended.drop_last() == old(hx).appended
+                && generator_frame(final(hx).appended.last(), task, suffix@, content)), //# generator.append.one_stamped_frame
+        r matches Ok(fr) ==> final(hx).appended.len() == old(hx).appended.len() + 1 && generator_frame(fr, task, suffix@, content), //# generator.append.returns_the_stored_frame
+//@@ prologue
+    broadcast use axiom_display_id, serde_json::axiom_str_value;
+    proof { axiom_fmt_req(); }
+//@@ end
+
+// ================= generators::serve::try_start_task, whole function (C18) =================
+// a spawn that cannot be honoured yields exactly one <name>.spawn.error naming it; one that can yields none
+pub struct Tx { pub ghost attempts: Seq<Scru128Id>, pub ghost last_ok: bool }
+#[verifier::external_body] pub struct GeneratorMap { _p: () }
+pub uninterp spec fn gmap(m: &GeneratorMap) -> Map<Seq<char>, GeneratorTask>;     // the table of running generators, by name
+impl GeneratorMap {
+    #[verifier::external_body] pub fn remove(&mut self, k: &str) -> (r: Option<GeneratorTask>) ensures gmap(final(self)) == gmap(old(self)).remove(k@) { unimplemented!() }
+    #[verifier::external_body] pub fn insert(&mut self, k: String, t: GeneratorTask) -> (r: Option<GeneratorTask>) ensures gmap(final(self)) == gmap(old(self)).insert(k@, t) { unimplemented!() }
+    #[verifier::external_body] pub fn contains_key(&self, k: &str) -> (r: bool) ensures r == gmap(self).contains_key(k@) { unimplemented!() }
+}
+// handle_spawn_event as try_start_task sees it (its own contract: unit restart_ops; a refused spawn leaves the table alone)
+#[verifier::external_body]
+fn handle_spawn_event(Tracked(tx): Tracked<&mut Tx>, topic: &str, frame: Frame, generators: &mut GeneratorMap, engine: nu::Engine, store: Store) -> (r: Result<(), Error>)
+    ensures final(tx).attempts == old(tx).attempts.push(frame.id), final(tx).last_ok == (r is Ok),
+        r is Err ==> gmap(final(generators)) == gmap(old(generators)),
+        r is Ok ==> gmap(final(generators)).dom() == gmap(old(generators)).dom().insert(topic@),
+{ unimplemented!() }
+spec fn spawn_error_frame(f: Frame, name: Seq<char>, spawn: Frame) -> bool {
+    &&& f.topic@ == name + ".spawn.error"@ && f.context_id == spawn.context_id
+    &&& f.meta matches Some(m) && serde_json::is_object(m)
+        && serde_json::obj(m).contains_key("source_id"@) && serde_json::strv(serde_json::obj(m)["source_id"@]) == Some(id_str(id_u128(spawn.id)))
+        && serde_json::obj(m).contains_key("reason"@)
+}
+//@@ item file=src/generators/serve.rs fn=try_start_task
+//@@ strip: async await
+//@@ json_desugar
+//@@ format_desugar
+//@@ rewrite: generators: &mut HashMap<String, GeneratorTask> ==> ! generators: &mut GeneratorMap
+//@@ after_all: fn try_start_task( ==> Tracked(hx): Tracked<&mut Hx>, Tracked(tx): Tracked<&mut Tx>,
+//@@ after_all: = handle_spawn_event( ==> Tracked(tx),
+//@@ spec
+    ensures
+        final(tx).attempts == old(tx).attempts.push(frame.id), //# generator.try_start.one_attempt
+        final(tx).last_ok ==> final(hx).appended == old(hx).appended, //# generator.try_start.no_error_frame_when_started
+        !final(tx).last_ok ==> final(hx).appended.len() == old(hx).appended.len() + 1 && final(hx).appended.drop_last() == old(hx).appended
+            && spawn_error_frame(final(hx).appended.last(), topic@, *frame), //# generator.try_start.one_spawn_error_naming_it
+        // a refused spawn does not touch the table of running generators (the running instance of that name stays registered)
+        !final(tx).last_ok ==> gmap(final(generators)) == gmap(old(generators)), //# generator.try_start.refusal_leaves_running_generators_alone
+        final(tx).last_ok ==> gmap(final(generators)).dom() == gmap(old(generators)).dom().insert(topic@), //# generator.try_start.refusal_leaves_running_generators_alone
+//@@ prologue
+    broadcast use axiom_display_id, serde_json::axiom_str_value;
+    proof {
+        axiom_fmt_req(); axiom_fmt_req3();
+        reveal_strlit("source_id"); reveal_strlit("reason");
+        assert("source_id"@.len() == 9 && "reason"@.len() == 6);
+    }
+//@@ end
 
 // registration traffic of the handler's own name (the specs take the name and the id, the only parts of the handler they depend on)
 spec fn reg_topic(f: Frame, name: Seq<char>) -> bool { f.topic@ == name + ".register"@ || f.topic@ == name + ".unregister"@ }
@@ -704,13 +627,6 @@ spec fn stop_announced(h0: &Hx, h1: &Hx, name: Seq<char>, ctx: Scru128Id, hid: S
     &&& direct_appends(h0, h1) == 1 ==> c.len() > 0 && h1.appended.len() > 0 && announcement(h1.appended.last(), name, ctx, hid, c.last(), failed)
 }
 spec fn consumed(old_in: Seq<Frame>, now_in: Seq<Frame>) -> Seq<Frame> { old_in.subrange(0, old_in.len() - now_in.len()) }
-spec fn stamped(out: Frame, inp: Frame, h: &Handler, trigger: &Frame) -> bool {
-    &&& out.context_id == h.context_id
-    &&& out.topic == inp.topic && out.hash == inp.hash && out.ttl == inp.ttl && out.id == inp.id
-    &&& out.meta matches Some(m) && serde_json::is_object(m)
-        && serde_json::obj(m).contains_key("handler_id"@) && serde_json::strv(serde_json::obj(m)["handler_id"@]) == Some(id_str(id_u128(h.id)))
-        && serde_json::obj(m).contains_key("frame_id"@) && serde_json::strv(serde_json::obj(m)["frame_id"@]) == Some(id_str(id_u128(trigger.id)))
-}
 
 } // verus!
 fn main() {}
